@@ -110,6 +110,16 @@ CHECKS = {
         "columns are independent (distance 4).",
         "Messages are sampled (basis + random); products exhaustive; corrupted words sampled.",
     ),
+    "C05": (
+        "DESIGN.md 5/C05",
+        "TLC: register models = polynomial remainder on all bit strings up to a bound (CRC.tla) + recomputation of observed checksums of both engines for every length 0..400 and of the four front ends",
+        "The remainder is specified without a register (superposition of x^k mod g); TLC checks exhaustively on all bit strings up to "
+        "12/14 bits (per width) that the bit-by-bit and the table register models equal it, proves the detection facts on the "
+        "polynomials (constant term, 96 distinct unit remainders with no two xoring to a third), and recomputes what the real bitwise "
+        "and table calculators returned (big- and little-endian bitarrays, every length 0..400, all short strings, unit vectors) and "
+        "what CRC8/CRC9/CRC16/CRC32 front ends and their check functions returned; the repository's on-air vectors guard the reading.",
+        "Long strings are sampled per length; polynomials as in ETSI B.3; CRC-32 front-end rule is the effective one (word swap, MSB first).",
+    ),
 }
 
 NOT_YET = {}
